@@ -9,7 +9,7 @@
 #include <algorithm>
 
 struct COut { Mat super_scores, super_weights; std::vector<Mat> block_scores, block_loadings; std::vector<double> total_expvar, scaling_factor; std::vector<std::vector<double>> block_expvar; Mat pred_super; };
-struct CCall { const std::vector<Mat> *blocks; int scaling, npc; COut *o; bool extras; };
+struct CCall { const std::vector<Mat> *blocks; int scaling, npc; COut *o; bool extras; bool reuse = false; };
 
 static void call_cpca(void *a_) {
   CCall &a = *(CCall *)a_;
@@ -25,6 +25,7 @@ static void call_cpca(void *a_) {
   for (size_t k = 0; k < m->block_expvar->size; k++) o.block_expvar.push_back(from_dvector(m->block_expvar->d[k]));
   if (a.extras) {
     matrix *ps; initMatrix(&ps); tensor *pb; initTensor(&pb);
+    if (a.reuse) { tensor *pb0; initTensor(&pb0); CPCAScorePredictor(t, m, a.npc > 1 ? (size_t)a.npc - 1 : 1, ps, pb0); DelTensor(&pb0); }   // the super-score output already holds an earlier, narrower result
     CPCAScorePredictor(t, m, (size_t)a.npc, ps, pb);
     o.pred_super = from_matrix(ps);
     DelMatrix(&ps); DelTensor(&pb);
@@ -64,6 +65,7 @@ struct HCpca : Harness {
     p.seti("npc", (int)wr.range(1, std::min(minw, 3 + (int)wr.below(6))));
     p.setd("rho", wr.uniform(0.2, 0.8));
     p.setu("data.seed", wr.next() >> 4);
+    if (wr.chance(0.5)) p.seti("reuse_outputs", 1);
     // blocks measured in different units (different instruments): per-block factor 10^e; option 0 keeps the unit, so it gets the wide range
     // ... and, for option 0 (which keeps the unit), the whole data set in a very small or very large unit
     if (p.geti("scaling") == 0 && wr.chance(0.35)) p.setd("unit_exp", wr.chance(0.7) ? wr.uniform(-8.0, -3.0) : wr.uniform(3.0, 6.0));
@@ -78,7 +80,7 @@ struct HCpca : Harness {
     sc.nproc = nproc; sc.step_limit = (tier == "quick") ? 100000000ULL : 1000000000ULL;
     sc.garbage_mode = strategy_override == SIM_S0_SEQUENTIAL ? (nproc == 1 ? 2 : 1) : 3;  // zeros / NaN garbage / huge finite garbage in the three fits
     sim_begin_run(&sc);
-    Fit f; CCall c{&blocks, scaling, npc, &f.out, extras};
+    Fit f; CCall c{&blocks, scaling, npc, &f.out, extras}; c.reuse = p.geti("reuse_outputs", 0) != 0;
     f.rc = sim_guard(call_cpca, &c);
     f.unjoined = sim_unjoined();
     sim_end_run(&f.sr);
